@@ -373,12 +373,17 @@ def api_ws_api__PcApi_HandleLogsStream : List String := [
   "}",
   "for _, procName := range procNames {",
   "logChan := make(chan LogMessage, 256)",
+  "gone := make(chan struct{})",
   "chanCloseMtx := &sync.Mutex{}",
   "isChannelClosed := false",
   "connector := pclog.NewConnector(func(messages []string) {",
   "for _, message := range messages {",
   "msg := LogMessage{Message: message, ProcessName: procName}",
-  "logChan <- msg",
+  "select {",
+  "case logChan <- msg:",
+  "case <-gone:",
+  "return",
+  "}",
   "}",
   "if !follow {",
   "chanCloseMtx.Lock()",
@@ -393,26 +398,36 @@ def api_ws_api__PcApi_HandleLogsStream : List String := [
   "if isChannelClosed {",
   "return 0, nil",
   "}",
-  "logChan <- msg",
+  "select {",
+  "case logChan <- msg:",
+  "case <-gone:",
+  "return 0, nil",
+  "}",
   "return len(message), nil",
   "}, endOffset)",
-  "go api.handleLog(ws, procName, connector, logChan, done)",
+  "go api.handleLog(ws, procName, connector, logChan, done, gone)",
   "err = api.project.GetLogsAndSubscribe(procName, connector)",
   "if err != nil {",
   "return",
+  "}",
+  "select {",
+  "case <-gone:",
+  "_ = api.project.UnSubscribeLogger(procName, connector)",
+  "default:",
   "}",
   "}",
   "}"]
 
 /-- src/api/ws_api.go:PcApi.handleLog -/
 def api_ws_api__PcApi_handleLog : List String := [
-  "func (api *PcApi) handleLog(ws *websocket.Conn, procName string, connector *pclog.Connector, logChan chan LogMessage, done chan struct{}) {",
+  "func (api *PcApi) handleLog(ws *websocket.Conn, procName string, connector *pclog.Connector, logChan chan LogMessage, done chan struct{}, gone chan struct{}) {",
   "defer func(project app.IProject, name string, observer pclog.LogObserver) {",
   "err := project.UnSubscribeLogger(name, observer)",
   "if err != nil {",
   "}",
   "}(api.project, procName, connector)",
   "defer ws.Close()",
+  "defer close(gone)",
   "for {",
   "select {",
   "case msg, open := <-logChan:",
@@ -429,7 +444,6 @@ def api_ws_api__PcApi_handleLog : List String := [
   "return",
   "}",
   "case <-done:",
-  "close(logChan)",
   "return",
   "}",
   "}",
@@ -3898,6 +3912,44 @@ def loader_validators__validateNoCircularDependencies : List String := [
   "}",
   "return nil",
   "}"]
+
+/-- src/pclog/log_observer_connector.go:Connector.GetTailLength -/
+def pclog_log_observer_connector__Connector_GetTailLength : List String := [
+  "func (c *Connector) GetTailLength() int {",
+  "return c.taiLength",
+  "}"]
+
+/-- src/pclog/log_observer_connector.go:Connector.GetUniqueID -/
+def pclog_log_observer_connector__Connector_GetUniqueID : List String := [
+  "func (c *Connector) GetUniqueID() string {",
+  "return c.uniqueId",
+  "}"]
+
+/-- src/pclog/log_observer_connector.go:Connector.SetLines -/
+def pclog_log_observer_connector__Connector_SetLines : List String := [
+  "func (c *Connector) SetLines(lines []string) {",
+  "c.logLinesHandler(lines)",
+  "}"]
+
+/-- src/pclog/log_observer_connector.go:Connector.WriteString -/
+def pclog_log_observer_connector__Connector_WriteString : List String := [
+  "func (c *Connector) WriteString(s string) (n int, err error) {",
+  "return c.logMessageHandler(s)",
+  "}"]
+
+/-- src/pclog/log_observer_connector.go:NewConnector -/
+def pclog_log_observer_connector__NewConnector : List String := [
+  "func NewConnector(mlHandler multiLineHandler, slHandler lineHandler, tail int) *Connector {",
+  "return &Connector{logLinesHandler: mlHandler, logMessageHandler: slHandler, uniqueId: GenerateUniqueID(10), taiLength: tail}",
+  "}"]
+
+/-- src/pclog/log_observer_connector.go: its functions -/
+def pclog_log_observer_connector__names : List String := [
+  "NewConnector",
+  "Connector.WriteString",
+  "Connector.SetLines",
+  "Connector.GetUniqueID",
+  "Connector.GetTailLength"]
 
 /-- src/pclog/logger_facade.go:NewLogger -/
 def pclog_logger_facade__NewLogger : List String := [
